@@ -332,7 +332,7 @@ static void check_traj_case(TrajCase const &c, Result &r, std::string const &pre
 // Part 2: running averages and correlation functions
 // ============================================================================
 struct RA { int L, stride; };
-struct ACF { int len, stride, off; bool norm; };
+struct ACF { int len, stride, off; bool norm; bool p2 = false; };  // p2: corrFuncType coordinate_p2 (vector variables only)
 
 static void check_analysis_word(std::vector<int> const &word, std::vector<RA> const &ras, std::vector<ACF> const &acfs,
                                 Result &r, std::string const &prefix, bool vec)
@@ -350,7 +350,7 @@ static void check_analysis_word(std::vector<int> const &word, std::vector<RA> co
             "\n runAveStride " + std::to_string(ras[i].stride) + "\n " + comp +
             " {\n group1 { atomNumbers 1 }\n group2 { atomNumbers 2 }\n }\n}\n";
   for (size_t i = 0; i < acfs.size(); i++)
-    conf += "colvar {\n name a" + std::to_string(i) + "\n corrFunc on\n corrFuncType coordinate\n corrFuncLength " +
+    conf += "colvar {\n name a" + std::to_string(i) + "\n corrFunc on\n corrFuncType " + ((acfs[i].p2 && vec) ? "coordinate_p2" : "coordinate") + "\n corrFuncLength " +
             std::to_string(acfs[i].len) + "\n corrFuncStride " + std::to_string(acfs[i].stride) + "\n corrFuncOffset " +
             std::to_string(acfs[i].off) + "\n corrFuncNormalize " + onoff(acfs[i].norm) + "\n " + comp +
             " {\n group1 { atomNumbers 1 }\n group2 { atomNumbers 2 }\n }\n}\n";
@@ -450,7 +450,7 @@ static void check_analysis_word(std::vector<int> const &word, std::vector<RA> co
     if (a.norm) nsamples += 1;  // the header subtracts one "degree of freedom" when normalising
     std::string det = "{\"part\":\"acf\",\"type\":\"" + kind + "\",\"values\":" + wj + ",\"corrFuncLength\":" + std::to_string(a.len) +
                       ",\"corrFuncStride\":" + std::to_string(a.stride) + ",\"corrFuncOffset\":" + std::to_string(a.off) +
-                      ",\"normalize\":" + (a.norm ? "true" : "false");
+                      ",\"normalize\":" + (a.norm ? "true" : "false") + ((a.p2 && vec) ? ",\"corrFuncType\":\"coordinate_p2\"" : "");
     // time origins: the N most recent steps t whose whole row of lags exists
     long maxlag = (long) (a.off + a.len) * a.stride;
     std::vector<long> origins;
@@ -464,7 +464,10 @@ static void check_analysis_word(std::vector<int> const &word, std::vector<RA> co
       double c = 0;
       for (long t : origins) {
         std::vector<double> u = value(t), w = value(t - lag);
-        for (size_t k = 0; k < u.size(); k++) c += u[k] * w[k];
+        double uw = 0, uu = 0, ww = 0;
+        for (size_t k = 0; k < u.size(); k++) { uw += u[k] * w[k]; uu += u[k] * u[k]; ww += w[k] * w[k]; }
+        if (a.p2 && vec) { double cs = uw / std::sqrt(uu * ww); c += 1.5 * cs * cs - 0.5; }  // second Legendre polynomial of the angle
+        else c += uw;
       }
       return c / origins.size();
     };
@@ -526,6 +529,8 @@ int main(int argc, char **argv)
     for (int stride = 1; stride <= 2; stride++)
       for (int off = 0; off <= 1; off++)
         for (int nrm = 0; nrm <= 1; nrm++) acfs.push_back(ACF{len, stride, off, nrm != 0});
+  // second-Legendre-polynomial correlation functions (used for the vector-valued variable; same as coordinate for the scalar)
+  for (int stride = 1; stride <= 2; stride++) for (int nrm = 0; nrm <= 1; nrm++) { ACF a{2, stride, 0, nrm != 0}; a.p2 = true; acfs.push_back(a); }
   long nana = 1;
   for (int i = 0; i < Lana; i++) nana *= nv_ana;
 
